@@ -67,6 +67,8 @@ def call(case):
     op = case['op']
     if op == 'np':
         return np_index(case)
+    if op == 'reuse':
+        return reuse(case)
     if op == 'sel':
         # spec suite: the independent Python reference (no polymath code involved)
         r = expect_get({'shape': case['obj']['shape'], 'mask': 'F', 'derivs': {}}, case['index'])
@@ -81,6 +83,39 @@ def call(case):
     if op == 'len':
         return len(q)
     raise KeyError(op)
+
+
+def index_snapshot(objs):
+    """values and mask (representation and bits) of the index objects and of objects sharing their masks"""
+    snap = []
+    for o in objs:
+        if isinstance(o, Qube):
+            m = o._mask_
+            snap.append((type(o).__name__, np.asarray(o._values_).tobytes(), np.shape(m),
+                         np.asarray(m).tobytes(), bool(o._readonly_)))
+        elif isinstance(o, np.ndarray):
+            snap.append(('ndarray', o.tobytes()))
+    return snap
+
+
+def reuse(case):
+    """ONE index (the same objects) applied to several targets in turn; the index objects must not change"""
+    ents = [R.mk_entry_ro(e) for e in case['index']]
+    watched = list(ents)
+    for e, o in zip(case['index'], ents):
+        if e.get('share') and isinstance(o, Qube) and isinstance(o._mask_, np.ndarray):
+            watched.append(Scalar(np.zeros(o._mask_.shape), o._mask_))      # another object on the same mask array
+    index = ents[0] if (case.get('bare') and len(ents) == 1) else tuple(ents)
+    before = index_snapshot(watched)
+    out = []
+    for t in case['targets']:
+        q = R.mk_object(t)
+        try:
+            out.append(R.observe_all(q[index]))
+        except Exception as e:
+            out.append(C.exc_name(e))
+    out.append('index-unchanged' if index_snapshot(watched) == before else 'index-CHANGED')
+    return out
 
 
 def impl(case):
@@ -159,6 +194,9 @@ def ient(i):
 def expect(case):
     if case['op'] in ('np', 'sel'):
         return None                      # kernel / spec suite: correspondence only
+    if case['op'] == 'reuse':
+        # every application judged as if the index objects were fresh; an index is an operand, not a target
+        return [expect_get(t, case['index']) for t in case['targets']] + ['index-unchanged']
     op, obj = case['op'], case['obj']
     if op == 'get':
         return expect_get(obj, case['index'])
@@ -177,6 +215,10 @@ def features(case):
     """coarse structural description of an index, used in `kind` and in failure signatures"""
     if case['op'] == 'sel':
         return 'spec-suite'
+    if case['op'] == 'reuse':
+        return 'index-reuse'
+    if case['op'] == 'reuse':
+        return 'index-reuse'
     if case['op'] != 'get':
         return case['op'] if case['op'] != 'np' else 'numpy-kernel'
     obj = case['obj']
@@ -212,6 +254,16 @@ def flagged(case):
 
 
 def signature(case, got, exp):
+    if case['op'] == 'reuse':
+        if isinstance(got, list) and got and got[-1] != 'index-unchanged':
+            return 'reuse:index-object-changed'
+        if isinstance(got, list) and isinstance(exp, list):
+            for t, g, e in zip(case['targets'], got, exp):
+                if C.sx(g) != C.sx(e):
+                    if g == 'IndexError' and not isinstance(e, str) and R.int_on_zero_axis(t['shape'], case['index']):
+                        return 'get:int-on-zero-length-axis:raises-IndexError'
+                    return 'reuse:later-application-differs'
+        return 'reuse'
     if case['op'] != 'get':
         return case['op']
     f = features(case)
@@ -247,6 +299,9 @@ def oracle(case):
 
 
 def describe(case):
+    if case['op'] == 'reuse':
+        return 'the SAME index objects %s applied in turn to targets of shapes %s' % (
+            repr(R.mk_index(case)).replace('\n', ' ')[:200], [t['shape'] for t in case['targets']])
     o = case['obj']
     s = '%s shape=%s item=%s' % (o['cls'], o['shape'], o['item'])
     if case['op'] == 'get':
@@ -306,6 +361,15 @@ def request(case):
     op = case['op']
     if op == 'np':
         return ['c09', 'np', case['shape'], case['nidx']]
+    if op == 'reuse':
+        # slices are abstracted per target, so the index is sent once per target via `get`-style targets only when
+        # it has no slice: the generator of reuse cases uses full slices (same abstraction problem) -> send per target
+        ts = []
+        for t in case['targets']:
+            shape, masks = wire_object(t)
+            ts.append([shape, masks])
+        shape0 = list(case['targets'][0]['shape'])
+        return ['c09', 'getseq', wire_index(shape0, case['index']), ts]
     shape, masks = wire_object(case['obj'])
     if op == 'get':
         return ['c09', 'get', shape, masks, wire_index(shape, case['index'])]
@@ -398,6 +462,11 @@ def np_abstract(shape, raw):
 
 
 def mk(case):
+    if case['op'] == 'reuse':
+        case['req'] = request(case)
+        case['kind'] = 'index-reuse'
+        case['nontrivial'] = True
+        return case
     if case['op'] == 'sel':
         case['req'] = request(case)
         case['kind'] = 'spec-suite'
@@ -459,6 +528,37 @@ def gen_cases(rng, tier):
                 shape = [rng.choice([0, 1, 2, 3, 2, 3]) for _ in range(rank)]
                 obj = G.rand_object(rng, shape=shape, derivs=False, classes=['Scalar', 'Scalar', 'Vector'])
                 cases.append(mk({'op': 'get', 'obj': obj, 'index': G.concretise(rng, shape, kinds), 'bare': False}))
+    # index-object REUSE: the same Scalar / Boolean / Pair / Vector index objects (array mask, scalar mask, read-only,
+    # mask array shared with another object) applied to targets of DIFFERENT axis lengths in turn
+    for _ in range(3000 if thorough else 600):
+        kind = rng.choice(['iarr', 'iarr', 'iarr', 'vec2', 'barr1', 'int'])
+        n_t = rng.choice([2, 3, 3])
+        lens = [rng.choice([1, 2, 3, 4, 5]) for _ in range(n_t)]
+        nmax = max(lens)
+        if kind == 'barr1':
+            lens = [lens[0]] * n_t                       # a boolean array fits one axis length only
+        extra = [rng.choice([1, 2, 3]) for _ in range(rng.choice([0, 1, 1]))]
+        if kind == 'vec2':
+            extra = [rng.choice([2, 3, 4])] + extra
+        ent = G.mk_kind(rng, kind, [nmax] + extra, None, p_mask=0.25, p_oob=0.1)
+        if kind in ('iarr', 'int'):
+            ent['form'] = 'Scalar'
+            if kind == 'iarr' and ent.get('m') is None:
+                ent['m'] = G.rand_mask_rep(rng, ent['shape'], p=0.25, views=False)
+        if kind == 'barr1':
+            ent['form'] = 'Boolean'
+            ent['m'] = G.rand_mask_rep(rng, ent['shape'], p=0.25, views=False)
+        ent['ro'] = rng.random() < 0.35
+        ent['share'] = rng.random() < 0.4
+        lead = rng.random() < 0.3
+        index = ([{'k': 'slice', 'a': None, 'b': None, 'c': None}] if lead else []) + [ent]
+        targets = []
+        for n in lens:
+            shape = ([2] if lead else []) + [n] + extra
+            targets.append(G.rand_object(rng, shape=shape, derivs=rng.random() < 0.2, classes=['Scalar', 'Scalar', 'Vector']))
+        if lead and len({tuple(t['shape'][:1]) for t in targets}) != 1:
+            continue
+        cases.append(mk({'op': 'reuse', 'index': index, 'targets': targets, 'bare': not lead and rng.random() < 0.5}))
     # shapeless objects with derivatives: every combination of object mask x derivative mask x a few scalar indices
     bm = {'k': 'bool', 'v': True, 'form': 'Boolean', 'm': True}
     for om in ('F', 'T'):
